@@ -331,7 +331,14 @@ def rule_solverarg(run):
     run.trust('the installed NumPy version is read from the dist-info directory name under /venv/lib (nothing is imported)')
 
 
+def rule_memo(run):
+    run.rule('MEMO', 'a result remembered between calls (memo dictionary, caching decorator) is keyed by every parameter it depends on', floor=1)
+    from .memo import memo_rule
+    memo_rule(run, ['t2thermo'])
+
+
 def check(run):
+    run.guarded('MEMO', rule_memo)
     run.guarded('SOLVERARG', rule_solverarg)
     run.guarded('POWNAME', rule_powname)
     run.guarded('BOUNDS', rule_bounds)
